@@ -717,6 +717,23 @@ class DBUDSServer(UDSServer):
     ) -> dict[int, dict[UDSIsoServices, list[int] | None]]:
         return {}
 
+    async def update_state(
+        self, request: service.UDSRequest, response: service.UDSResponse
+    ) -> None:
+        await super().update_state(request, response)
+
+        # The recording client (ECU.update_state) also follows the session
+        # reported by a read of the active session data identifier.
+        if (
+            isinstance(response, service.ReadDataByIdentifierResponse)
+            and response.data_identifier == DataIdentifier.ActiveDiagnosticSessionDataIdentifier
+        ):
+            new_session = int.from_bytes(response.data_record, "big")
+
+            if self.state.session != new_session:
+                self.state.reset()
+                self.state.session = new_session
+
     async def respond_after_default(
         self, request: service.UDSRequest
     ) -> service.UDSResponse | None:
